@@ -3,7 +3,7 @@
 Run from /verif/spec:  python3 mk_wc_cfgs.py"""
 BASE = dict(Bug='"none"', MaxSteps=5, MaxEditRun=3, Acts=None, EditPaths="AllEditPaths",
             Contents="{1, 2}", SymTargets='{"out"}', RootIgnore="{2, 3}", DirIgnore="{5}",
-            TreeIds="{1, 3, 4, 8}", SparseIds="{1, 2, 3}", XP='"respect"', Strict="FALSE", Emit="FALSE")
+            TreeIds="{1, 3, 4, 8}", SparseIds="{1, 2, 3}", XP='"respect"', Strict='"none"', Emit="FALSE")
 EDITS_ALL = ["Write", "Chmod", "Delete", "Mkfifo", "FileToDir", "DirToFile", "DirToSymlink", "RmTree", "Symlink"]
 
 
@@ -43,20 +43,20 @@ C23I = dict(Acts=acts(["Write", "Delete", "Mkfifo", "FileToDir", "DirToFile", "R
 write("c23_ignored", ALLINV, **C23I)
 write("c23_ignored_thorough", ALLINV, **dict(C23I, MaxSteps=7, Contents="{1, 2}"))
 write("neg_snap_tracked_nonfile", ["Inv_C23"], **dict(C23I, Bug='"snap-tracked-nonfile"'))
-write("finding_through_symlink", ["Inv_C23"], **dict(C23I, Strict="TRUE", TreeIds="{12}", MaxSteps=3, EditPaths="DirPaths",
+write("finding_through_symlink", ["Inv_C23"], **dict(C23I, Strict='"all"', TreeIds="{12}", MaxSteps=3, EditPaths="DirPaths",
                                                    SymTargets='{"out/x"}', Acts=acts(["DirToSymlink", "Snapshot", "CheckOut"])))
-write("finding_notdir", ["Inv_C23"], **dict(C23I, Strict="TRUE", TreeIds="{12}", MaxSteps=3,
+write("finding_notdir", ["Inv_C23"], **dict(C23I, Strict='"all"', TreeIds="{12}", MaxSteps=3,
                                           Acts=acts(["DirToFile", "Mkfifo", "Snapshot", "CheckOut"])))
 write("c23_thorough", ALLINV, **dict(C23, MaxSteps=5, RootIgnore="{1, 2, 3, 4}", DirIgnore="{5, 6}"))
 for bug in ("snap-ignore-tracked", "snap-no-dir-delete", "snap-skip-ignored-dir"):
     write("neg_" + bug.replace("-", "_"), ["Inv_C23"], **dict(C23, Bug='"%s"' % bug, MaxSteps=5))
 
-write("finding_dir_conflict", ["Inv_C23"], **dict(C23, Strict="TRUE", MaxSteps=3, TreeIds="{9}",
+write("finding_dir_conflict", ["Inv_C23"], **dict(C23, Strict='"all"', MaxSteps=3, TreeIds="{9}",
                                                 Acts=acts(["DirToFile", "Snapshot", "CheckOut"])))
-write("finding_tracked_dir", ["Inv_C23"], **dict(C23, Strict="TRUE", MaxSteps=4, TreeIds="{4, 5}",
+write("finding_tracked_dir", ["Inv_C23"], **dict(C23, Strict='"all"', MaxSteps=4, TreeIds="{4, 5}",
                                                Acts=acts(["FileToDir", "Snapshot", "CheckOut"])))
 
-write("finding_stale_ignored", ["Inv_C23"], **dict(C23, Strict="TRUE", MaxSteps=6, MaxEditRun=2, TreeIds="{1, 4}",
+write("finding_stale_ignored", ["Inv_C23"], **dict(C23, Strict='"all"', MaxSteps=6, MaxEditRun=2, TreeIds="{1, 4}",
                                                  RootIgnore="{7}", DirIgnore="{}", Contents="{2}", EditPaths="IgnoreEditPaths",
                                                  Acts=acts(["Write", "FileToDir", "DirToFile", "Snapshot", "CheckOut"])))
 
@@ -83,7 +83,7 @@ write("c25_thorough", ALLINV, **dict(C25, MaxSteps=5, Contents="{1, 2}", RootIgn
                                      Acts=acts(["Write", "Symlink", "FileToDir", "DirToFile", "Delete", "CheckOut", "Snapshot"])))
 write("neg_co_overwrite", ["Inv_C25"], **dict(C25, Bug='"co-overwrite"'))
 write("neg_co_follow_symlink", ["Inv_C25"], **dict(C25, Bug='"co-follow-symlink"'))
-write("finding_unsorted", ["Inv_C25"], **dict(C25, Strict="TRUE", MaxSteps=5))
+write("finding_unsorted", ["Inv_C25"], **dict(C25, Strict='"all"', MaxSteps=5))
 
 # ---- C27: sparse patterns interleaved with check-outs, edits and snapshots
 C27 = dict(Acts=acts(["Write", "Delete", "DirToFile", "CheckOut", "SetSparse", "Snapshot"]), TreeIds="{3, 5}",
@@ -93,10 +93,10 @@ write("c27", ALLINV, **C27)
 write("c27_thorough", ALLINV, **dict(C27, MaxSteps=6, TreeIds="{3, 5, 8}", Contents="{1, 2}"))
 write("neg_sparse_drop_tree", ["Inv_C27"], **dict(C27, Bug='"sparse-drop-tree"'))
 write("neg_sparse_delete", ["Inv_C27"], **dict(C27, Bug='"sparse-delete"', MaxSteps=5))
-write("finding_sparse_clash", ["Inv_C27"], **dict(C27, Strict="TRUE", MaxSteps=5, TreeIds="{4}", SparseIds="{1, 4}",
+write("finding_sparse_clash", ["Inv_C27"], **dict(C27, Strict='"F9"', MaxSteps=5, TreeIds="{4}", SparseIds="{1, 4}",
                                                 Acts=acts(["Write", "FileToDir", "CheckOut", "SetSparse", "Snapshot"])))
-write("finding_sparse_panic", ["Inv_C27"], **dict(C27, Strict="TRUE", MaxSteps=5))
-write("finding_stale_state", ["Inv_C23"], **dict(C27, Strict="TRUE", MaxSteps=5, TreeIds="{1, 3, 5}",
+write("finding_sparse_panic", ["Inv_C27"], **dict(C27, Strict='"all"', MaxSteps=5))
+write("finding_stale_state", ["Inv_C23"], **dict(C27, Strict='"all"', MaxSteps=5, TreeIds="{1, 3, 5}",
                                                 Acts=acts(["Write", "CheckOut", "SetSparse", "Snapshot"]), EditPaths="SparseEditPaths"))
 
 # ---- generators (simulation; behaviours of 10 steps with a wide alphabet)
